@@ -725,6 +725,11 @@ func (sc *segmentController[T, O]) segments(ctx context.Context, reopenClosed bo
 	for i := range sc.lst {
 		if reopenClosed {
 			if err = sc.lst[i].incRef(ctx); err != nil {
+				// Release the segments pinned in earlier iterations: the caller
+				// gets no list back and therefore cannot DecRef them.
+				for _, pinned := range r[:i] {
+					pinned.DecRef()
+				}
 				return nil, err
 			}
 		} else {
